@@ -28,7 +28,11 @@ RULE = ('one case = one shape (a circle, a list of circles, or a convex 3..8-gon
         'overlapping, disjoint, single and vector add_circles) whose get_area is read BEFORE any query and again after '
         'one, and the same kind of build with a query (sky_within scalar / list / vector, get_demoted, get_area) between '
         'the steps after which every shape added so far is judged again; the depth argument of add_circles and '
-        'add_poly is driven below, equal to and above maxdepth; an evaluation is one '
+        'add_poly is driven below, equal to and above maxdepth; "via" cases: shapes built at depth D reach the judged '
+        'region of depth d = D-4..D+3 through Region.union or `MIMAS -depth d +r file.mim`, with and without a query on '
+        'the source first; "regfile" cases: circles / convex polygons / boxes written to a DS9 fk5 region file in decimal '
+        'degrees or sexagesimal (declinations in (-1, 0), RA 00:00:xx, both hemispheres) and converted with '
+        'MIMAS.reg2mim / `MIMAS --reg2mim`; an evaluation is one '
         'probe judged through one sky_within call, or one stored pixel examined; non-trivial = the probe is farther than '
         '1e-9 rad from the boundary it is judged against (must-be-inside or must-be-outside); distinct = unique probe '
         'coordinates within a case, cases with equal hash counted once')
@@ -50,11 +54,19 @@ ASSUMPTIONS = ['oracle: sphere.sep separations; polygon interior = same side of 
                'caps / circumscribed caps grown by 3 pixel sizes (upper), both estimated by a seeded Monte-Carlo '
                'sample of 300000 points uniform in a bounding cap; the bounds are widened by 6 binomial standard '
                'deviations (false-alarm probability < 1e-8 per case) and the estimate is reported with its error',
+               'via cases: a region degraded from depth D to a coarser depth d is judged with a band of 3 pixel sizes of '
+               'depth D (the statement, for the source) plus 3 pixel sizes of depth d (every pixel is replaced by its '
+               'ancestor, whose diameter is below 2.1 pixel sizes of depth d); shallower into deeper: 3 pixel sizes of D',
+               'regfile cases: the shape is the one the written text describes (values re-read from the printed digits, '
+               'own sexagesimal formatter); sizes are written in arcsec with the double-quote suffix, the only form the '
+               'converter documents; a box is judged as the rectangle of its corners with 2 % of its smaller side as '
+               'margin on both clauses and only within 1 deg of the equator, because box2poly ignores cos(dec) in RA',
                'integer-typed coordinates: whole degrees on and around every shape (degin=True) and the 21 whole-radian '
                'positions ra 0..6, dec -1..1 (degin=False); integer-typed constructor arguments are whole radians '
                '(circle centres, radius 1 rad, triangle vertices); int8/int16 arrays are not used because numpy itself '
                'converts them to float16/float32 radians']
-MIN_REACH = {'regions:Region.add_circles': 1, 'regions:Region.add_poly': 1, 'regions:Region.sky_within': 1,
+MIN_REACH = {'regions:Region.union': 1, 'MIMAS:reg2mim': 1, 'MIMAS:circle2circle': 1, 'MIMAS:poly2poly': 1,
+             'MIMAS:box2poly': 1, 'regions:Region.add_circles': 1, 'regions:Region.add_poly': 1, 'regions:Region.sky_within': 1,
              'regions:Region.get_area': 1}
 MIN_COUNTERS = {'circle_probe_inside_judged': 2000, 'circle_probe_far_judged': 2000,
                 'poly_probe_inside_judged': 2000, 'poly_probe_far_judged': 2000,
@@ -62,6 +74,9 @@ MIN_COUNTERS = {'circle_probe_inside_judged': 2000, 'circle_probe_far_judged': 2
                 'shapes_at_pole': 2, 'shapes_across_ra0': 2, 'nonfinite_probes': 10,
                 'integer_probe_inside_judged': 300, 'integer_probe_far_judged': 300, 'integer_spellings_compared': 2000,
                 'integer_radian_spellings_compared': 2000, 'integer_radian_probe_inside_judged': 100, 'integer_constructor_calls': 10,
+                'regfile_regions': 40, 'regfile_sexagesimal': 15, 'regfile_shapes_dec_between_minus1_and_0': 15,
+                'regfile_probe_inside_judged': 2000, 'via_probe_inside_judged': 2000, 'via_depth_gap_2_or_more': 15,
+                'via_shallower_into_deeper': 5, 'via_source_queried_first': 10,
                 'builds_area_before_query': 30, 'builds_with_interleaved_queries': 40, 'build_interleaved_queries': 60,
                 'build_vector_add_circles': 10, 'add_poly_with_depth_argument': 50, 'builds_with_overlap': 15, 'build_probe_inside_judged': 2000}
 
@@ -162,6 +177,75 @@ def cases(seed, tier):
                 steps.append(st)
             out.append({'kind': 'build', 'maxdepth': md, 'depth': None, 'steps': steps, 'n': 1200,
                         'seed': ['t', 'build', i, polymask]})
+    # shapes that reach the judged region through another region (Region.union / MIMAS -depth d +r file)
+    hexa = [0.0, 55.0, 120.0, 185.0, 240.0, 300.0]
+    k = 0
+    for D in (8, 9, 10):
+        for dd in (-1, -2, -4, 0, 1, 2):
+            for qf in (False, True):
+                shp = [{'op': 'circle', 'ra': 40.0 + 37 * k, 'dec': -35.0 + 9 * k % 70, 'r': 3.0},
+                       {'op': 'poly', 'ra': (48.0 + 37 * k) % 360, 'dec': -33.0 + 9 * k % 70, 'r': 2.5, 'angles': hexa,
+                        'orient': 1 if k % 2 else -1}]
+                out.append({'kind': 'via', 'maxdepth': D + dd, 'D': D, 'd': D + dd, 'shapes': shp if k % 3 else shp[:1],
+                            'query_first': qf, 'route': 'cli' if k % 4 == 1 else 'api', 'n': 1200,
+                            'seed': ['t', 'via', D, dd, qf]})
+                k += 1
+    rvia = rng_for(seed, 'c09-via', tier)
+    for i in range(110 if tier == 'quick' else 1600):
+        D = int(rvia.integers(6, 12))
+        dd = int(rvia.choice([-1, -2, -2, -3, -4, 0, 1, 2, 3]))
+        d = int(np.clip(D + dd, 3, 12))
+        r = resol_deg(D) * rvia.uniform(6, 60)
+        while math.pi * (r / resol_deg(max(D, d))) ** 2 > 80000:
+            r *= 0.7
+        ra, dec = float(rvia.uniform(0, 360)), float(math.degrees(math.asin(rvia.uniform(-0.98, 0.98))))
+        shp = []
+        for j in range(int(rvia.integers(1, 3))):
+            a, b = sphere.destination(ra, dec, r * rvia.uniform(0, 2.5) * j, rvia.uniform(0, 360))
+            sp = {'op': 'circle', 'ra': float(a) % 360.0, 'dec': float(np.clip(b, -89, 89)), 'r': float(r * rvia.uniform(0.5, 1))}
+            if rvia.random() < 0.4:
+                sp.update(op='poly', angles=_angles(rvia, int(rvia.integers(3, 9)), mingap=8.0), orient=int(rvia.choice([1, -1])))
+            shp.append(sp)
+        out.append({'kind': 'via', 'maxdepth': d, 'D': D, 'd': d, 'shapes': shp, 'query_first': bool(rvia.random() < 0.5),
+                    'route': 'cli' if rvia.random() < 0.25 else 'api', 'n': 1200, 'seed': [seed, 'via', i]})
+    # DS9 region files -> MIMAS.reg2mim / --reg2mim: decimal degrees and sexagesimal, declinations in (-1, 0), RA 00:00:xx
+    tr = [
+        [{'op': 'circle', 'ra': 12.5, 'dec': -0.5, 'r': 0.15}], [{'op': 'circle', 'ra': 0.02, 'dec': -0.2, 'r': 0.05}],
+        [{'op': 'circle', 'ra': 188.7, 'dec': -0.0125, 'r': 0.2}, {'op': 'circle', 'ra': 189.6, 'dec': 0.4, 'r': 0.1}],
+        [{'op': 'poly', 'ra': 45.0, 'dec': -0.6, 'r': 0.25, 'angles': hexa, 'orient': 1}],
+        [{'op': 'poly', 'ra': 0.01, 'dec': 0.05, 'r': 0.3, 'angles': [10.0, 100.0, 190.0, 280.0], 'orient': -1}],
+        [{'op': 'box', 'ra': 100.0, 'dec': -0.4, 'w': 0.3, 'h': 0.2}], [{'op': 'box', 'ra': 0.05, 'dec': 0.3, 'w': 0.2, 'h': 0.3}],
+        [{'op': 'circle', 'ra': 300.0, 'dec': -45.5, 'r': 0.3}, {'op': 'poly', 'ra': 301.5, 'dec': -45.0, 'r': 0.4,
+                                                                'angles': hexa, 'orient': 1}],
+        [{'op': 'circle', 'ra': 75.0, 'dec': 62.25, 'r': 0.2}], [{'op': 'circle', 'ra': 359.99, 'dec': -0.9, 'r': 0.08}],
+    ]
+    for i, shp in enumerate(tr):
+        for fmt in ('decimal', 'sexagesimal'):
+            out.append({'kind': 'regfile', 'maxdepth': 11 if i % 2 else 10, 'depth': None, 'shapes': shp, 'format': fmt,
+                        'route': 'cli' if (i + len(fmt)) % 3 == 0 else 'api', 'n': 1200, 'seed': ['t', 'regfile', i, fmt]})
+    rreg = rng_for(seed, 'c09-regfile', tier)
+    for i in range(90 if tier == 'quick' else 1400):
+        md = int(rreg.integers(9, 13))
+        pixd = resol_deg(md)
+        shp = []
+        for j in range(int(rreg.integers(1, 4))):
+            u = rreg.random()
+            dec = float(-rreg.uniform(0.001, 0.98) if u < 0.4 else (rreg.uniform(0.001, 0.98) if u < 0.6 else
+                                                                     rreg.uniform(-80, 80)))
+            ra = float(rreg.uniform(0, 0.3) if rreg.random() < 0.2 else rreg.uniform(0, 359.9))
+            r = float(pixd * rreg.uniform(5, 40))
+            v = rreg.random()
+            if v < 0.5:
+                shp.append({'op': 'circle', 'ra': ra, 'dec': dec, 'r': r})
+            elif v < 0.85 or abs(dec) > 0.9:
+                shp.append({'op': 'poly', 'ra': ra, 'dec': dec, 'r': r, 'angles': _angles(rreg, int(rreg.integers(3, 9)), mingap=8.0),
+                            'orient': int(rreg.choice([1, -1]))})
+            else:
+                h = float(min(pixd * rreg.uniform(6, 40), 2 * (0.98 - abs(dec))))
+                shp.append({'op': 'box', 'ra': ra, 'dec': dec, 'w': float(pixd * rreg.uniform(6, 40)), 'h': max(h, 0.01)})
+        out.append({'kind': 'regfile', 'maxdepth': md, 'depth': None, 'shapes': shp,
+                    'format': str(rreg.choice(['decimal', 'sexagesimal'])), 'route': 'cli' if rreg.random() < 0.3 else 'api',
+                    'n': 1200, 'seed': [seed, 'regfile', i]})
     # the same targeted builds with a query between the steps (the cache is built, then more is added)
     for i, (md, circ) in enumerate(tb):
         for j, q in enumerate(QUERIES):
@@ -594,7 +678,7 @@ def _union_margins(shapes, ra, dec):
             if pv is None:
                 pv = sphere.vec(ra, dec)
             h = np.degrees(np.arcsin(np.clip(pv @ sh['nrm'].T, -1, 1))).min(axis=-1)
-            inner = np.maximum(inner, h)
+            inner = np.maximum(inner, h - sh.get('inner_margin', 0.0))
     return inner, outer
 
 
@@ -643,6 +727,220 @@ def _integer_section(o, reg, shapes, pix, md, iv, rng):
                 'inside_margin_deg': float(inner[i]), 'distance_beyond_circle_deg': float(outer[i])}
     _judge(o, 'integer_radian', ref, model_in, must_in, must_out, free, dra, ddec,
            lambda idx: healmember.stable_cell(dra[idx], ddec[idx], md)[1], extra_r)
+
+
+# ----------------------------------------------------------------------------- regions obtained by another route
+def _judge_region(o, reg, shapes, pix, md, rng, tag, n, extra_info):
+    """the usual clauses for a finished region that should hold `shapes`: stored pixels not far, probes through
+    sky_within and through the stored pixels; `pix` is the pixel size the 3-pixel band is measured in"""
+    iv = healmember.intervals(reg.pixeldict, md, ignore_deeper=True)
+    ok, area = _call(o, reg.get_area, 'get_area() [%s]' % tag)
+    if ok:
+        want = healmember.n_deepest(iv) * SPHERE_SR / (12 * 4 ** md) * SQDEG
+        o.n_eval += 1
+        if abs(area - want) > 1e-9 * max(want, 1e-300):
+            o.violate('area_vs_stored_pixels', dict(extra_info, area_sqdeg=area, stored_pixels_sqdeg=want))
+    _examine_pixels(o, reg, [sh['cen'] for sh in shapes], [sh['R'] for sh in shapes], pix, tag)
+    n_each = max(200, n // len(shapes))
+    pra, pdec = [], []
+    for sh in shapes:
+        x, y = _probes_about(rng, sh['cen'][0], sh['cen'][1], sh['R'], pix, n_each)
+        pra.append(np.concatenate([[sh['cen'][0]], x]))
+        pdec.append(np.concatenate([[sh['cen'][1]], y]))
+    pra, pdec = np.concatenate(pra), np.concatenate(pdec)
+    res = _query_all(o, reg, pra, pdec, rng)
+    if res is None:
+        return None
+    inner, outer, must_in, must_out, free = _classify(shapes, pra, pdec, pix)
+    model_in = healmember.member(iv, healmember.cell(pra, pdec, md))
+    summ = _shape_summary(shapes)
+
+    def extra(i):
+        return dict(extra_info, shapes=summ, band_pixel_size_deg=pix, maxdepth=md, inside_margin_deg=float(inner[i]),
+                    distance_beyond_circle_deg=float(outer[i]))
+    _judge(o, tag, res, model_in, must_in, must_out, free, pra, pdec,
+           lambda idx: healmember.stable_cell(pra[idx], pdec[idx], md)[1], extra)
+    o.n_nontrivial += n_distinct_rows(pra[must_in | must_out], pdec[must_in | must_out])
+    return {'deepest_pixels': healmember.n_deepest(iv), 'probes': len(pra), 'must_in': int(must_in.sum()),
+            'must_out': int(must_out.sum()), 'reported_inside': int(res.sum())}
+
+
+def _shape_from_spec(o, reg, sp, k):
+    """add one circle / polygon (spec in degrees) to reg; returns the shape or None"""
+    if sp['op'] == 'circle':
+        ok, _ = _call(o, reg.add_circles, 'add_circles (shape %d)' % k, math.radians(sp['ra']), math.radians(sp['dec']),
+                      math.radians(sp['r']))
+        return _circle_shape(sp['ra'], sp['dec'], sp['r']) if ok else None
+    ang = list(sp['angles'])[::sp.get('orient', 1)]
+    vra, vdec = sphere.destination(sp['ra'], sp['dec'], np.full(len(ang), sp['r']), np.array(ang))
+    ok, _ = _call(o, reg.add_poly, 'add_poly (shape %d)' % k, [[math.radians(a), math.radians(d)] for a, d in zip(vra, vdec)])
+    return _poly_shape(sp['ra'], sp['dec'], vra, vdec) if ok else None
+
+
+def _run_via(o, case, rng):
+    """shapes built in a region of depth D reach the judged region of depth d through Region.union or through
+    `MIMAS -depth d +r file.mim -o out.mim`"""
+    import os
+    import shutil
+    from aegmon.common import scratch_dir
+    from AegeanTools.regions import Region
+    D, d = case['D'], case['d']
+    ok, r1 = _call(o, Region, 'Region(maxdepth=%d)' % D, maxdepth=D)
+    if not ok:
+        return o.result()
+    shapes = []
+    for k, sp in enumerate(case['shapes']):
+        sh = _shape_from_spec(o, r1, sp, k)
+        if sh is None:
+            return o.result()
+        shapes.append(sh)
+    if case.get('query_first'):
+        c = shapes[0]['cen']
+        _call(o, r1.sky_within, 'sky_within on the source region before the union', c[0], c[1], degin=True)
+        o.count('via_source_queried_first')
+    o.see('via_depths', '%d->%d' % (D, d))
+    o.see('via_route', case['route'])
+    o.count('via_deeper_into_shallower' if D > d else ('via_shallower_into_deeper' if D < d else 'via_equal_depth'))
+    if D - d >= 2:
+        o.count('via_depth_gap_2_or_more')
+    if case['route'] == 'api':
+        ok, reg = _call(o, Region, 'Region(maxdepth=%d)' % d, maxdepth=d)
+        if not ok:
+            return o.result()
+        ok, _ = _call(o, reg.union, 'Region(maxdepth=%d).union(region of depth %d)' % (d, D), r1)
+        if not ok:
+            return o.result()
+    else:
+        from AegeanTools.CLI import MIMAS as cli
+        tmp = scratch_dir()
+        try:
+            f1, f2 = os.path.join(tmp, 'deep.mim'), os.path.join(tmp, 'out.mim')
+            r1.save(f1)
+            ok, _ = _call(o, cli.main, 'MIMAS -depth %d +r deep.mim -o out.mim' % d, ['-depth', str(d), '+r', f1, '-o', f2])
+            o.count('cli_runs')
+            if not ok:
+                return o.result()
+            if not os.path.exists(f2):
+                o.violate('no_output_file', {'route': 'MIMAS -depth +r -o'})
+                return o.result()
+            reg = Region.load(f2)
+        finally:
+            shutil.rmtree(tmp, ignore_errors=True)
+    if reg.maxdepth != d:
+        o.violate('result_maxdepth', {'asked': d, 'got': reg.maxdepth})
+        return o.result()
+    # the source obeys the statement at its own resolution (3 pixel sizes of depth D); degrading to a coarser depth
+    # replaces every pixel by its ancestor, whose diameter is < 3 pixel sizes of depth d
+    pix = resol_deg(D) + resol_deg(d) if d < D else resol_deg(D)
+    info = {'source_depth': D, 'final_depth': d, 'route': case['route'], 'query_first': bool(case.get('query_first'))}
+    o.sample = _judge_region(o, reg, shapes, pix, d, rng, 'via', case['n'], info)
+    return o.result()
+
+
+# ----------------------------------------------------------------------------- DS9 region files
+def _sexa(value_deg, hours, nd):
+    """(string, exact value in degrees of that string): independent sexagesimal formatter, sign kept for -00:.."""
+    unit = 3600 * 10 ** nd
+    v = abs(value_deg) / (15.0 if hours else 1.0)
+    total = int(round(v * unit))
+    whole, frac = divmod(total, 10 ** nd)
+    dd, rem = divmod(whole, 3600)
+    mm, ss = divmod(rem, 60)
+    neg = value_deg < 0 and total > 0
+    txt = '%s%02d:%02d:%02d' % ('-' if neg else ('+' if (not hours and total % 2) else ''), dd, mm, ss)
+    if nd:
+        txt += '.%0*d' % (nd, frac)
+    exact = (-1 if neg else 1) * total / float(unit) * (15.0 if hours else 1.0)
+    return txt, exact
+
+
+def _coord(ra, dec, fmt):
+    """(ra text, dec text, ra value, dec value) as written to the file"""
+    if fmt == 'sexagesimal':
+        ta, va = _sexa(ra % 360.0, True, 5)
+        td, vd = _sexa(dec, False, 4)
+        return ta, td, va % 360.0, vd
+    ta, td = '%.8f' % (ra % 360.0), '%.8f' % dec
+    return ta, td, float(ta) % 360.0, float(td)
+
+
+def _run_regfile(o, case, rng):
+    """circles / polygons / boxes written to a DS9 region file (fk5; decimal degrees or sexagesimal; sizes in
+    arcsec) and converted with MIMAS.reg2mim or `MIMAS --reg2mim`; the resulting region must hold those shapes"""
+    import os
+    import shutil
+    from aegmon.common import scratch_dir
+    from AegeanTools import MIMAS
+    from AegeanTools.regions import Region
+    md = case['maxdepth']
+    pix = resol_deg(md)
+    fmt = case['format']
+    o.see('regfile_format', fmt)
+    lines = ['# Region file format: DS9 version 4.1', 'fk5']
+    shapes = []
+    for sp in case['shapes']:
+        if sp['op'] == 'circle':
+            ta, td, va, vd = _coord(sp['ra'], sp['dec'], fmt)
+            rtxt = '%.3f' % (sp['r'] * 3600)
+            lines.append('circle(%s,%s,%s")' % (ta, td, rtxt))
+            shapes.append(_circle_shape(va, vd, float(rtxt) / 3600))
+        elif sp['op'] == 'poly':
+            ang = list(sp['angles'])[::sp.get('orient', 1)]
+            vra, vdec = sphere.destination(sp['ra'], sp['dec'], np.full(len(ang), sp['r']), np.array(ang))
+            words, wra, wdec = [], [], []
+            for a, dd in zip(vra, vdec):
+                ta, td, va, vd = _coord(float(a), float(dd), fmt)
+                words += [ta, td]
+                wra.append(va)
+                wdec.append(vd)
+            lines.append('polygon(%s)' % ','.join(words))
+            shapes.append(_poly_shape(sp['ra'], sp['dec'], np.array(wra), np.array(wdec)))
+        else:
+            # box: judged as the rectangle with those corners, with 2 % of its smaller side as margin on both clauses
+            # (the conversion ignores cos(dec) in the RA extent; boxes are only placed within 1 deg of the equator)
+            ta, td, va, vd = _coord(sp['ra'], sp['dec'], fmt)
+            wt, ht = '%.3f' % (sp['w'] * 3600), '%.3f' % (sp['h'] * 3600)
+            lines.append('box(%s,%s,%s",%s",0)' % (ta, td, wt, ht))
+            w, h = float(wt) / 3600, float(ht) / 3600
+            cra = np.array([va + w / 2, va - w / 2, va - w / 2, va + w / 2]) % 360.0
+            cdec = np.array([vd + h / 2, vd + h / 2, vd - h / 2, vd - h / 2])
+            sh = _poly_shape(va, vd, cra, cdec)
+            sh['inner_margin'] = 0.02 * min(w, h)
+            sh['R'] += sh['inner_margin']
+            shapes.append(sh)
+        o.see('regfile_shape', sp['op'])
+        if -1 < shapes[-1]['cen'][1] < 0:
+            o.count('regfile_shapes_dec_between_minus1_and_0')
+    tmp = scratch_dir()
+    try:
+        regf, mimf = os.path.join(tmp, 'shapes.reg'), os.path.join(tmp, 'shapes.mim')
+        with open(regf, 'w') as f:
+            f.write('\n'.join(lines) + '\n')
+        if case['route'] == 'cli':
+            from AegeanTools.CLI import MIMAS as cli
+            ok, _ = _call(o, cli.main, 'MIMAS --reg2mim shapes.reg shapes.mim -depth %d' % md,
+                          ['--reg2mim', regf, mimf, '-depth', str(md)])
+            o.count('cli_runs')
+        else:
+            ok, _ = _call(o, MIMAS.reg2mim, 'reg2mim(shapes.reg, shapes.mim, %d)' % md, regf, mimf, md)
+        if not ok:
+            o.sample = {'region_file': lines}
+            return o.result()
+        if not os.path.exists(mimf):
+            o.violate('no_output_file', {'route': case['route'], 'region_file': lines})
+            return o.result()
+        reg = Region.load(mimf)
+    finally:
+        shutil.rmtree(tmp, ignore_errors=True)
+    o.count('regfile_regions')
+    if fmt == 'sexagesimal':
+        o.count('regfile_sexagesimal')
+    if reg.maxdepth != md:
+        o.violate('result_maxdepth', {'asked': md, 'got': reg.maxdepth})
+        return o.result()
+    smp = _judge_region(o, reg, shapes, pix, md, rng, 'regfile', case['n'], {'region_file': lines, 'route': case['route']})
+    o.sample = dict(smp or {}, region_file=lines)
+    return o.result()
 
 
 # ----------------------------------------------------------------------------- multi-step builds
@@ -893,6 +1191,10 @@ def run(case):
     pix = resol_deg(eff)
     o.see('maxdepth', md)
     o.see('depth_argument', 'None' if dp is None else ('coarser' if dp < md else ('equal' if dp == md else 'deeper')))
+    if case['kind'] == 'via':
+        return _run_via(o, case, rng)
+    if case['kind'] == 'regfile':
+        return _run_regfile(o, case, rng)
     ok, reg = _call(o, Region, 'Region(maxdepth=%d)' % md, maxdepth=md)
     if not ok:
         return o.result()
